@@ -156,6 +156,10 @@ impl ModelW {
             Step::MMul { u, s } => {
                 o.b("out", &mx::mul_le(&u.a32(), &sc_int(s)));
             }
+            Step::MBase { s } => {
+                o.b("out", &mx::mul_le(&mx::basepoint_u(), &sc_int(s)));
+                o.b("clamped", &mx::x25519(&s.b.a32(), &mx::basepoint_u()));
+            }
             Step::MBits { u, bits, n } => {
                 let all = refmodel::big::bits_msb_first(&bits.0.iter().rev().cloned().collect::<Vec<u8>>());
                 // bits.0 is read byte by byte, most significant bit first
@@ -250,6 +254,8 @@ impl ModelW {
                 o.f("ok", sig.is_some());
                 if let Some(sig) = sig {
                     o.b("sig", &sig);
+                    // the signer's own verification wrappers accept what it just produced
+                    o.f("self_verify", true);
                 }
             }
             Step::Ver { mode, key, m, sig, ctx, ch: _, chosen, d: _ } => {
@@ -581,6 +587,11 @@ impl RealW {
                     o.f("paths_disagree", true);
                 }
             }
+            Step::MBase { s } => {
+                let k = sc_real(s);
+                o.b("out", MontgomeryPoint::mul_base(&k).as_bytes());
+                o.b("clamped", MontgomeryPoint::mul_base_clamped(s.b.a32()).as_bytes());
+            }
             Step::MBits { u, bits, n } => {
                 let mut v = Vec::new();
                 for byte in &bits.0 {
@@ -682,6 +693,25 @@ impl RealW {
                 o.f("ok", sig.is_some());
                 if let Some(sig) = sig {
                     o.b("sig", &sig.to_bytes());
+                    let prehashed = !matches!(mode, 0 | 1 | 4);
+                    let sv = match sg {
+                        RSigner::Key(sk) => {
+                            if prehashed {
+                                sk.verify_prehashed(sha512_chunked(&m.0, ch), c, &sig).is_ok()
+                                    && sk.verifying_key().verify_prehashed_strict(sha512_chunked(&m.0, ch), c, &sig).is_ok()
+                            } else {
+                                SigningKey::verify(sk, &m.0, &sig).is_ok() && sk.verify_strict(&m.0, &sig).is_ok() && Verifier::verify(sk, &m.0, &sig).is_ok()
+                            }
+                        }
+                        RSigner::Esk(_, vk) => {
+                            if prehashed {
+                                vk.verify_prehashed(sha512_chunked(&m.0, ch), c, &sig).is_ok()
+                            } else {
+                                vk.verify_strict(&m.0, &sig).is_ok()
+                            }
+                        }
+                    };
+                    o.f("self_verify", sv);
                 }
             }
             Step::Ver { mode, key, m, sig, ctx, ch, chosen, d } => {
